@@ -1,6 +1,7 @@
 (* C04_check.v — history-level correspondence for the commit plugin.
-   C04_transmit: every evaluation of ShouldTransmitAcceptedReport in a simulated DON history (4 real plugin instances
-   over one shared world): input = the report's roots (with the harness's ground truth "is this the true root"),
+   C04_transmit: every evaluation of ShouldTransmitAcceptedReport in a simulated DON history (4, 7 or 10 real plugin
+   instances over one shared world; the DON shape — N, F, per-chain f, reader sets, colluding Byzantine oracles — is
+   drawn per history): input = the report's roots (with the harness's ground truth "is this the true root"),
    the off-ramp cursor at that moment, whether the oracle's destination read fails; output = the verdict.
    C04_final: the sequence of reports that reached the off-ramp and what it holds at the end. *)
 Require Import Verif.Model.Base Verif.Model.Transmit Verif.Model.CommitSys.
@@ -73,7 +74,8 @@ Definition st_judge := judge st_model Bool.eqb st_ok (fun _ => 0%N).
 (* ---------- whole-plugin round correspondence (sink C04_round) ----------
    commit.Plugin.Outcome (merkle-root part) on the decoded attributed observations of a DON history round must equal
    the composition of the C01 model (CommitConsensus.get_consensus) and the C03 model (CommitSM.get_outcome).
-   RMN is disabled in these histories (no bundles, empty remote configs). *)
+   RMN is disabled in these histories (no bundles, empty remote configs). F is the role-DON F of the history the round
+   belongs to; the per-chain f values are the fChain maps inside the observations. *)
 Require Export Verif.Model.CommitSM.
 Require Verif.Model.CommitConsensus Verif.Check.C03_check.
 Definition mkObs := CommitConsensus.mkObs.
@@ -111,8 +113,47 @@ Definition rd_roots_ok (prev : CommitSM.outcome) (retry : bool) (co : option Com
                          existsb (CommitSM.root_eqb r) (CommitSM.o_roots prev))
                         || existsb (CommitSM.root_eqb r) (CommitSM.c_roots c)) (CommitSM.o_roots o)
   end.
+(* Liveness, the round-level steps (C04_liveness_round_partial, 7., split into its two rounds = the steps select_round /
+   build_round of C04_liveness, 9.) on the implementation's outcome, hypotheses read off the agreed values c of the round:
+     selecting, the agreed off-ramp map has one entry per chain, agreed on-ramp numbers are uint64, n >= 1:
+        for every chain k with agreed next = off and agreed latest = on, off <= on (messages pending), the outcome
+        is "ranges selected" and selects [off, min(on, off+n-1)] for k;
+     building, no RMN retry (no bundle in this sink): every agreed root is reported in a "report generated" outcome.
+   (These clauses were missing: step_ok accepts a selecting outcome that selects nothing and an empty outcome in the
+   building state whatever was agreed. Witness and soundness: Proofs/JudgeSoundC04P.v.) *)
+Require Verif.Model.SeqRange.
+Definition rd_live_ok (n : N) (prev : CommitSM.outcome) (retry : bool) (co : option CommitSM.cons) (o : CommitSM.outcome)
+  : bool :=
+  match co with
+  | None => true
+  | Some c =>
+      match CommitSM.next_state (CommitSM.o_type prev) with
+      | CommitSM.Selecting =>
+          if nodupb N.eqb (map fst (CommitSM.c_off c)) &&
+             forallb (fun e : N * N => match alookup (fst e) (CommitSM.c_on c) with
+                                       | Some m => SeqRange.u64b m | None => true end) (CommitSM.c_on c) &&
+             N.leb 1 n
+          then forallb (fun ko : N * N =>
+                          match alookup (fst ko) (CommitSM.c_on c) with
+                          | Some on =>
+                              if N.leb (snd ko) on
+                              then Z.eqb (CommitSM.o_type o) CommitSM.T_selected &&
+                                   existsb (C03_check.cr_eqb (fst ko, (snd ko, N.min on (snd ko + n - 1))))
+                                           (CommitSM.o_ranges o)
+                              else true
+                          | None => true
+                          end) (CommitSM.c_off c)
+          else true
+      | CommitSM.Building =>
+          if retry then true
+          else forallb (fun r => Z.eqb (CommitSM.o_type o) CommitSM.T_generated &&
+                                 existsb (CommitSM.root_eqb r) (CommitSM.o_roots o)) (CommitSM.c_roots c)
+      | CommitSM.Waiting => true
+      end
+  end.
 Definition rd_ok (i : rd_in) (o : CommitSM.outcome) : bool :=
   let '(F, dest, max, n, prev, retry, aos) := i in
   C03_check.step_ok max prev (CommitSM.mkQuery retry None, round_cons F dest aos) o &&
-  rd_roots_ok prev retry (round_cons F dest aos) o.
+  rd_roots_ok prev retry (round_cons F dest aos) o &&
+  rd_live_ok n prev retry (round_cons F dest aos) o.
 Definition rd_judge := judge rd_model C03_check.outcome_eqb rd_ok (fun _ => 0%N).
